@@ -215,6 +215,9 @@ def gen_plan(rng):
     plan['preserve'] = rng.chance(30)
     plan['glob'] = rng.choice([None, None, '/src/*', '/src/*/*', '/s*/*']) \
         if pop == 'get' else None
+    # the same names in every sub-directory, but from the second one on as
+    # another kind (a link first, then a file or directory of that name)
+    plan['sub_flip'] = rng.chance(40)
     return plan
 
 
@@ -588,9 +591,15 @@ def run_download(world, plan, base):
         kinds[full] = k
 
         if k == 'd':
-            listings[full] = sub
+            this = sub
 
-            for n2, k2 in sub:
+            if plan.get('sub_flip') and len(listings) > 1:
+                this = [[n2, {'l': 'f', 'f': 'l', 'd': 'f'}[k2]]
+                        for n2, k2 in sub]
+
+            listings[full] = this
+
+            for n2, k2 in this:
                 kinds[full + '/' + n2] = k2
 
                 if k2 == 'l':
